@@ -502,8 +502,18 @@ pub fn check_bytes(bump: &Bump, bytes: &[u8]) -> Option<String> {
         (Ok(_), Err(_)) => return Some(format!("from_utf8 accepts {:02x?}, std rejects it", bytes)),
         (Err(_), Ok(_)) => return Some(format!("from_utf8 rejects {:02x?}, std accepts it", bytes)),
     }
+    // a canary right above where the decoder's buffer will be placed (the arena bumps downwards): a decoder that writes
+    // past its reservation is caught on this very input, before the damage can spread to later ones
+    let canary: &mut [u8] = bump.alloc_slice_fill_copy(24, 0xC5u8);
+    let canary_ptr = canary.as_ptr();
     let ls = BString::from_utf8_lossy_in(bytes, bump);
     let lt = String::from_utf8_lossy(bytes);
+    if unsafe { std::slice::from_raw_parts(canary_ptr, 24) }.iter().any(|x| *x != 0xC5) {
+        return Some(format!("from_utf8_lossy_in({:02x?}) wrote outside its own buffer (a neighbouring live block changed)", bytes));
+    }
+    if ls.len() > ls.capacity() {
+        return Some(format!("from_utf8_lossy_in({:02x?}) has len {} > capacity {}", bytes, ls.len(), ls.capacity()));
+    }
     if std::str::from_utf8(ls.as_bytes()).is_err() {
         return Some(format!("from_utf8_lossy_in({:02x?}) produced invalid UTF-8: {:02x?}", bytes, ls.as_bytes()));
     }
@@ -514,8 +524,18 @@ pub fn check_bytes(bump: &Bump, bytes: &[u8]) -> Option<String> {
 }
 
 pub fn check_u16(bump: &Bump, units: &[u16]) -> Option<String> {
+    let canary: &mut [u8] = bump.alloc_slice_fill_copy(24, 0xC5u8);
+    let canary_ptr = canary.as_ptr();
     let rs = BString::from_utf16_in(units, bump);
     let rt = String::from_utf16(units);
+    if unsafe { std::slice::from_raw_parts(canary_ptr, 24) }.iter().any(|x| *x != 0xC5) {
+        return Some(format!("from_utf16_in({:04x?}) wrote outside its own buffer (a neighbouring live block changed)", units));
+    }
+    if let Ok(s) = &rs {
+        if s.len() > s.capacity() {
+            return Some(format!("from_utf16_in({:04x?}) has len {} > capacity {}", units, s.len(), s.capacity()));
+        }
+    }
     // validity first, on the bytes: text that is not UTF-8 must never be formatted or compared as a str
     if let Ok(s) = &rs {
         if std::str::from_utf8(s.as_bytes()).is_err() {
